@@ -900,6 +900,8 @@ struct GenCfg {
     drain: bool,
     frac_shares_p: f64,
     dup_p: f64,
+    resubmit_p: f64,
+    mass_create: bool,
     preset_id_p: f64,
     unknown_symbol_p: f64,
 }
@@ -961,7 +963,7 @@ impl Gen {
         };
         let big = focus == "C17";
         let burst_sizes: &'static [usize] = if thorough {
-            if big { &[3, 8, 21, 33, 64, 65, 200, 1000, 5000] } else { &[3, 8, 21, 33, 64, 65, 200] }
+            if big { &[3, 8, 21, 33, 64, 65, 200, 1000, 5000] } else { &[3, 8, 21, 33, 64, 65, 200, 3, 8, 21, 33, 64, 65, 200, 3, 8, 21, 33, 64, 200, 5000] }
         } else if big {
             &[3, 5, 8, 21, 22, 33, 64, 65, 200, 300]
         } else {
@@ -997,6 +999,8 @@ impl Gen {
             drain: c.chance(0.7),
             frac_shares_p: *c.pick(&[0.0, 0.1]),
             dup_p: *c.pick(&[0.0, 0.2, 0.6]),
+            resubmit_p: *c.pick(&[0.0, 0.05, 0.2]),
+            mass_create: thorough && focus == "C08" && crate::common::long_run(seed, tier) && c.one_in(4),
             preset_id_p: *c.pick(&[0.0, 0.0, 0.1]),
             unknown_symbol_p: *c.pick(&[0.0, 0.03]),
         };
@@ -1065,6 +1069,16 @@ impl Gen {
             return None;
         }
         self.issued += 1;
+        if self.cfg.mass_create && sim.layer == Layer::Server && self.issued == self.cfg.max_ops / 2 {
+            // a server that has handed out more than a thousand backtests
+            self.cfg.mass_create = false;
+            sim.ctx.bump("probe_mass_creation_of_backtests");
+            for i in 0..1100usize {
+                let dataset = sim.datasets[i % sim.datasets.len()].name.clone();
+                let dataset = if sim.single { sim.datasets[0].name.clone() } else { dataset };
+                self.queue.push_back(Op::Create { client: (i % self.sched.n) as u8, init: sim.path == Path::Json || i % 2 == 0, dataset });
+            }
+        }
         if sim.layer == Layer::Bare {
             return Some(self.next_bare(sim));
         }
@@ -1073,7 +1087,7 @@ impl Gen {
         let mine: Vec<usize> = live.iter().copied().filter(|h| sim.bts[*h].owner == client).collect();
         let want_create = live.is_empty() || (mine.is_empty() && self.rng.chance(0.7)) || (sim.bts.len() < self.cfg.max_bts && self.rng.chance(self.cfg.create_p));
         if want_create {
-            let dataset = if self.rng.chance(0.06) { "nope".to_string() } else { self.rng.pick(sim.datasets).name.clone() };
+            let dataset = if self.rng.chance(0.06) { unknown_name(&mut self.rng, sim.datasets) } else { self.rng.pick(sim.datasets).name.clone() };
             let dataset = if sim.single && !self.rng.chance(0.06) { sim.datasets[0].name.clone() } else { dataset };
             let init = sim.path == Path::Json || self.rng.one_in(2);
             return Some(Op::Create { client, init, dataset });
@@ -1096,7 +1110,25 @@ impl Gen {
         let w = [self.cfg.w_insert, self.cfg.w_tick, self.cfg.w_delete, self.cfg.w_fetch, self.cfg.w_now, self.cfg.w_info];
         Some(match self.rng.weighted(&w) {
             0 => {
-                let order = self.order(sim, h, None);
+                let mut order = self.order(sim, h, None);
+                if self.rng.chance(self.cfg.resubmit_p) {
+                    // re-use an order object the exchange handed back: it carries the id of an order
+                    // that is still resting, same symbol / type / size, possibly another price
+                    let resting: Vec<(u64, OrderSpec)> = sim.trackers[h].resting().filter_map(|r| r.id.map(|i| (i, r.spec.clone()))).collect();
+                    if !resting.is_empty() {
+                        let (id, mut spec) = self.rng.pick(&resting).clone();
+                        spec.preset_id = Some(id);
+                        if let Some(p) = spec.price {
+                            if !self.rng.one_in(3) {
+                                let ds = &sim.datasets[sim.bts[h].ds];
+                                spec.price = Some(X(price_near(&mut self.rng, ds, &spec.symbol, sim.bts[h].k + 1)));
+                                let _ = p;
+                            }
+                        }
+                        order = spec;
+                        sim.ctx.bump("probe_resubmitted_resting_order_with_its_id");
+                    }
+                }
                 Op::Insert { client, bt, order, light: false }
             }
             1 => Op::Tick { client, bt },
@@ -1176,6 +1208,26 @@ impl Rng {
     }
 }
 
+/// A dataset name the server does not know: unrelated, or a near miss of a registered one (other
+/// case, a prefix, a suffix).
+pub fn unknown_name(rng: &mut Rng, datasets: &[DatasetSpec]) -> String {
+    let known: Vec<&str> = datasets.iter().map(|d| d.name.as_str()).collect();
+    let base = rng.pick(datasets).name.clone();
+    let cands = [
+        "nope".to_string(),
+        base.to_uppercase(),
+        base.to_lowercase(),
+        format!("{base}x"),
+        base[..base.len().saturating_sub(1).max(1)].to_string(),
+        "Random".to_string(),
+    ];
+    let mut pick = rng.pick(&cands).clone();
+    if known.contains(&pick.as_str()) || pick.is_empty() {
+        pick = "nope".to_string();
+    }
+    pick
+}
+
 fn finish(sim: &mut Sim) {
     sim.solo_check();
     for t in &sim.trackers {
@@ -1221,7 +1273,7 @@ impl Engine for E1U {
         }
         let mut st = WorldStats::default();
         let nds = if layer == Layer::Server && !single { w.range(1, 3) as usize } else { 1 };
-        let names = ["fake", "d2", "RANDOM"];
+        let names = ["fake", "Fake", "RANDOM"]; // two registered names differ only in case
         let datasets: Vec<DatasetSpec> = (0..nds).map(|i| gen_dataset(&mut w, names[i], &cfg, &mut st)).collect();
 
         let mut gen = Gen::new(seed, tier, focus);
